@@ -240,3 +240,26 @@ package config
 //@   assumes forall k int, i int :: 0 <= k && k < len(cfg.Receivers) && 0 <= i && i < len(cfg.Receivers[k].JiraConfigs) ==> cfg.Receivers[k].JiraConfigs[i] != nil
 //@   assumes forall k int, i int :: 0 <= k && k < len(cfg.Receivers) && 0 <= i && i < len(cfg.Receivers[k].RocketchatConfigs) ==> cfg.Receivers[k].RocketchatConfigs[i] != nil
 //@   assumes forall k int, i int :: 0 <= k && k < len(cfg.Receivers) && 0 <= i && i < len(cfg.Receivers[k].MattermostConfigs) ==> cfg.Receivers[k].MattermostConfigs[i] != nil
+
+// ---- C17: Load is total. Whatever the decoder leaves in the target (it does not even call Config.UnmarshalYAML for a
+// document without content: empty, only comments, a bare '---', 'null', '~'), Load answers with an error or with a
+// configuration that has a root route - it never dereferences a missing route. The whole input is decoded, strictly.
+//@ func Load
+//@   props C17
+//@   after call errors.New assume res0 != nil
+//@   at call UnmarshalStrict assert [the-whole-input-is-decoded-into-a-new-configuration] str(arg0) == s && fresh(cfg)
+//@   ensures [error-or-configuration] (result1 == nil) == (result0 != nil)
+//@   ensures [decoder-error-is-reported] called("UnmarshalStrict") && (ret("UnmarshalStrict") != nil ==> result1 == ret("UnmarshalStrict"))
+//@   ensures [a-loaded-configuration-has-a-root-route-without-continue] result1 == nil ==> result0.Route != nil && !result0.Route.Continue
+//@   ensures [the-text-it-was-loaded-from-is-kept] result1 == nil ==> result0.original == s
+
+// ---- C17: LoadFile = Load of the file's content; a read or load error is returned, not swallowed.
+//@ func LoadFile
+//@   props C17
+//@   nosafe
+//@   ensures [read-error-is-reported] called("os.ReadFile") && (ret1("os.ReadFile") != nil ==> result1 == ret1("os.ReadFile") && result0 == nil && !called("Load"))
+//@   at call Load assert [loads-the-file_s-content] arg0 == str(ret("os.ReadFile"))
+//@   ensures [load-error-is-reported] called("Load") && ret1("Load") != nil ==> result1 == ret1("Load") && result0 == nil
+//@   ensures [the-loaded-configuration-is-returned] called("Load") && ret1("Load") == nil ==> result0 == ret("Load") && result1 == nil
+//@   at call resolveFilepaths assert [only-a-loaded-configuration-is-completed] arg1 == ret("Load") && ret1("Load") == nil
+//@   noeffect Load resolveFilepaths
